@@ -596,7 +596,7 @@ func (in *Interp) runPath(fn *ssa.Function, prefix []int) (kind, msg string, vio
 			}
 			kind, viol = "violation", v
 		default:
-			kind, msg = "engine-error", fmt.Sprintf("%v\n%s", r, trimStack(debug.Stack()))
+			kind, msg = "engine-error", fmt.Sprintf("%v in %s\n%s", r, in.whereAmI(), trimStack(debug.Stack()))
 		}
 	}()
 	in.callSSA(nil, fn, nil, nil)
